@@ -435,7 +435,9 @@ what a carried `prev_pos` does to chrA 100,200,300 / chrB 300,400,500). -/
 /-- a `--ped` run over the chromosomes `Ss` (in file order): `none` if the pipeline of one of them fails -/
 def pipelineRun (Ss : List Stage) : Option (List (List WhVerif.C09.Row)) := Ss.mapM pipeline
 
-private theorem pipelineRun_at (pre post : List Stage) (S : Stage) :
+/-- **pipeline_run_chromosome_local**: what a run over `pre ++ S :: post` puts out for chromosome `S` is what the pipeline puts
+out for `S` alone (the pedigree-level form of `C09.write_file_chromosome_local`) -/
+theorem pipeline_run_chromosome_local (pre post : List Stage) (S : Stage) :
     ∀ out, pipelineRun (pre ++ S :: post) = some out →
       ∃ rows, pipeline S = some rows ∧ out[pre.length]? = some rows := by
   induction pre with
@@ -478,7 +480,7 @@ theorem pedigree_vcf_phased_every_chromosome (pre post : List Stage) (S : Stage)
       ∀ row ∈ rows, row.pos = posAt S.pos c → ∀ j, S.header[j]? = some (S.names.getD ind "") →
         samplePhase row j =
           some ⟨some ((mc : Int) + 1), [some (colEntry S.I β τ c ind).1, some (colEntry S.I β τ c ind).2]⟩ := by
-  obtain ⟨rows, h1, h2⟩ := pipelineRun_at pre post S out hrun
+  obtain ⟨rows, h1, h2⟩ := pipeline_run_chromosome_local pre post S out hrun
   obtain ⟨rows', h1', h3⟩ := pedigree_vcf_phased S hwf hin β τ hw comps hcomps ind hind c hc hent mc hmc
   rw [h1] at h1'
   cases h1'
